@@ -19,6 +19,7 @@ Definition vi (z : Z) := VInt z. Definition vs (s : string) := VStr (codes s).
 Definition B := g_py_binop. Definition U := g_py_unop.'''
 COQ_CASE_TYPE = 'case'
 COQ_AGREE = 'agree'
+COQ_SHARD = 560
 REPLAY_KIND = 'input'
 EXHAUSTIVE = {'quick': False, 'thorough': False}
 RULE = ('three streams: (1) every type-correct parent/child shape pair -- each operator (both operand orders), '
@@ -29,7 +30,8 @@ RULE = ('three streams: (1) every type-correct parent/child shape pair -- each o
         'NULL-containing IN lists, == None / != None on either side; (3) ill-typed trees (text only). Every typed tree '
         'is run as a filter on sqlite over a table holding the cross product of small value domains (NULL included) of '
         'the columns it uses. Non-trivial = the filter keeps some but not all rows; distinct = distinct (tree, rows).')
-EXPLANATION = ('Theorems C03_render_parse (any precedence table, any dialect, unbounded depth), C03_eval / C03_filter '
+EXPLANATION = ('Theorems C03_render_parse / C03_render_parse_full / C03_text_parse (any precedence table, any dialect, unbounded depth; tokens and '
+               'characters), C03_eval / C03_filter '
                '(three-valued logic), C03_none_is_null / C03_never_eq_null, C03_nary, C03_notin, C03_empty_in, '
                'C03_operand_order over a model whose builder table and __sqlrepr__ bodies are REGENERATED from '
                'sqlbuilder.py / converters.py on this run; correspondence: exact text equality with sqlrepr() for seven '
@@ -48,9 +50,10 @@ TRUSTED_BASE = [
     'theorem holds for every level assignment), eval3 (Kleene logic, comparison with NULL, IN over lists with NULL, '
     'x IN () FALSE, integer / and % truncating with NULL on a zero divisor) -- validated against the bundled sqlite '
     'only; other engines by documentation; an empty IN list "IN ()" is a syntax error outside sqlite (not judged)',
-    'character level: that the engine\'s lexer splits the text into the modelled tokens (spaces, "-5", quotes) is '
-    'checked by exact text equality + execution on sqlite, not proved; string literals are restricted to characters '
-    'all dialects quote alike (escaping is C02)',
+    'character level: C03_text_parse proves that the reference lexer reads the model text back into the tokens; that '
+    'the model text IS the real text is checked by exact text equality (Tie B), that real engines\' lexers agree with '
+    'the reference lexer by execution on sqlite only; string literals are restricted to characters all dialects '
+    'quote alike (escaping is C02); column names are assumed to be words (letter first, no keyword)',
     'outside the fragment: subqueries other than a one-column IN (SELECT), LIKE, CONCAT, user SQLConstant text, '
     'function calls other than MOD, float/bool constants, //, **, abs',
     'the correspondence harness tools/props/c03.py and the cases.v evaluation',
@@ -510,6 +513,25 @@ def shape_pairs(rng):
     return out
 
 
+def field_const_mismatch(t):
+    """column ==/!= constant of another type: SQLObjectField.__eq__ passes the constant through the column's
+    validator (BoolCol turns -7 into True, IntCol raises Invalid, ...) -- column validation is C01's subject"""
+    if t[0] == 'bin':
+        if t[1] in ('==', '!='):
+            for a, b in ((t[2], t[3]), (t[3], t[2])):
+                if a[0] == 'col' and b[0] == 'const' and b[1] is not None:
+                    if {'n': int, 's': str, 'b': bool}[a[1]] is not type(b[1]):
+                        return True
+        return field_const_mismatch(t[2]) or field_const_mismatch(t[3])
+    if t[0] == 'un':
+        return field_const_mismatch(t[2])
+    if t[0] in ('AND', 'OR'):
+        return any(field_const_mismatch(x) for x in t[1])
+    if t[0] in ('col', 'const'):
+        return False
+    return field_const_mismatch(t[1])
+
+
 def malformed_cases(rng, n):
     """ill-typed trees: only the text is compared"""
     g = Gen(rng)
@@ -540,7 +562,9 @@ def malformed_cases(rng, n):
             if x[0] in ('col', 'const'):
                 return x
             return [x[0], mutate(x[1])] + x[2:]
-        out.append(finish(rng, mutate(t), typed=False))
+        m = mutate(t)
+        if not field_const_mismatch(m):
+            out.append(finish(rng, m, typed=False))
     return out
 
 
@@ -663,7 +687,8 @@ def run_impl(cases):
         raise ValueError(k)
 
     def captured(e, acc):
-        """comparisons whose right operand is an IN-subquery with a parenthesised item (the open finding's trigger)"""
+        """comparisons whose right operand is an IN-subquery with a parenthesised item (the shape that was captured
+        before cc273ef; only counted in the distribution now)"""
         if isinstance(e, sb.SQLOp):
             if e.op in CMPOPS and isinstance(e.expr2, sb.INSubquery) and sqlrepr(e.expr2.item, 'sqlite')[:1] == '(':
                 acc.append(e.op)
@@ -860,8 +885,7 @@ def oracle(c, o):
 
 
 def classify(c, o, f):
-    if isinstance(o, dict) and o.get('captured') and 'expected' in f and f.get('actual') is not None:
-        return 'insubquery_item_parenthesised'
+    # no open finding: insubquery_item_parenthesised was fixed by cc273ef (its witness stays in corpus())
     return None
 
 
